@@ -62,8 +62,9 @@ func (rp *RuleParser) ParseVariables(vars string) error {
 				// we don't want to miss the last character
 				if curr == 0 {
 					curVar = append(curVar, c)
-				} else if curr != 2 && c != '/' {
-					// we don't want the last slash if it's a regex
+				} else if curr != 2 {
+					// inside a regex the last character is its closing slash,
+					// which is not part of the key
 					curKey = append(curKey, c)
 				}
 			}
@@ -128,8 +129,9 @@ func (rp *RuleParser) ParseVariables(vars string) error {
 				// We are starting a XPATH
 				curr = 3
 				curKey = append(curKey, c)
-			case c == '/':
-				// We are starting a regex
+			case c == '/' && len(curKey) == 0:
+				// We are starting a regex: only a key that begins with a slash is one,
+				// a slash inside a string key (ARGS:a/b) belongs to the key
 				curr = 2
 			case c == '\'':
 				// we start a quoted regex
